@@ -10,9 +10,9 @@ import (
 )
 
 func verifC04Key(i int, long int) []byte {
-	// key i: length i+1 (or `long` for key 0 when long > 0), first byte i+1, rest zero
+	// key i: length i+1 (or `long` for key 0 when long >= 0), first byte i+1, rest zero
 	n := i + 1
-	if i == 0 && long > 0 {
+	if i == 0 && long >= 0 {
 		n = long
 	}
 	k := make([]byte, n)
@@ -68,7 +68,7 @@ func VerifC04Seal() {
 	keys := make([][]byte, k)
 	vals := make([][]byte, k)
 	for i := range keys {
-		keys[i] = verifC04Key(i, 0)
+		keys[i] = verifC04Key(i, -1)
 		vals[i] = verifBytes("value", vs)
 	}
 	if dup {
